@@ -366,7 +366,15 @@ class CodeBuilder:
             self.get_unpack_method_flags(pass_decoder=True),
         ]
         unpacker_args_s = ", ".join(filter(None, unpacker_args))
-        self.add_line(f"return cls.{method_name}({unpacker_args_s})")
+        if self.dialect is None:
+            self.add_line(f"return cls.{method_name}({unpacker_args_s})")
+        else:
+            # a dialect-specific method lives only in the dialect cache
+            cache_name = self._get_dialect_cache_name("unpacker")
+            self.add_line(
+                f"return cls.{cache_name}[__lazy_dialect]"
+                f"(cls, {unpacker_args_s})"
+            )
 
     def _add_unpack_method_lines(self, method_name: str) -> None:
         config = self.get_config()
@@ -834,7 +842,16 @@ class CodeBuilder:
             ").add_pack_method()"
         )
         packer_args = self.get_pack_method_flags(pass_encoder=True)
-        self.add_line(f"return self.{method_name}({packer_args})")
+        if self.dialect is None:
+            self.add_line(f"return self.{method_name}({packer_args})")
+        else:
+            # a dialect-specific method lives only in the dialect cache
+            cache_name = self._get_dialect_cache_name("packer")
+            packer_args = ", ".join(filter(None, ("self", packer_args)))
+            self.add_line(
+                f"return self.__class__.{cache_name}[__lazy_dialect]"
+                f"({packer_args})"
+            )
 
     def _add_pack_method_lines(self, method_name: str) -> None:
         config = self.get_config()
